@@ -4,5 +4,7 @@ Cases == JsonDeserialize(IOEnv.CASES)
 VARIABLE i
 Init == i \in 1..Len(Cases)
 Next == UNCHANGED i
-Check == LET cl == Clause(Cases[i]) IN cl = "ok" \/ PrintT(ToJson([viol |-> i, clause |-> cl]))
+Check == LET cl == Clause(Cases[i]) dr == Drift(Cases[i]) IN
+         /\ cl = "ok" \/ PrintT(ToJson([viol |-> i, clause |-> cl]))
+         /\ dr = "ok" \/ PrintT(ToJson([viol |-> i, clause |-> dr]))
 =============================================================================
